@@ -24,7 +24,7 @@ CHILD_MODS = {
     "replication/events.rs": "c_events.rs",
 }
 
-BASE_MODELS = ["pretty-hash", "ed25519-dalek", "tracing", "tracing-attributes"]
+BASE_MODELS = ["pretty-hash", "ed25519-dalek", "tracing", "tracing-attributes", "crc32fast"]
 
 
 def strip_sections(toml: str) -> str:
